@@ -185,6 +185,65 @@ def alias_unit(cls):
 MUTABLE_BUILTINS = (list, dict, set, bytearray)
 
 
+def ctor_fresh_unit(vcls, param, w, source):
+    """the vector constructor (what attrs converters and defaults go through) builds a NEW item list: the result holds the
+    argument's items but shares no mutable state with it -- for an argument that is a vector of the same class or a list"""
+    from checks import c12
+
+    def thunk():
+        P = E.cur()
+        v, items0 = c12.sym_vector(P, vcls, param, w)
+        arg = v if source == 'vector' else v.f['_items']
+        out = I.construct(vcls, [arg], {})
+        mine = reachable_mutables(out)
+        theirs = reachable_mutables(arg)
+        e1.record_path_fact(P, 'fresh %s(%s): the new vector shares no mutable object with its argument' % (vcls.__name__, source),
+                            not any(a is b for a in mine for b in theirs))
+        vc.oblige_equal(P, 'fresh %s(%s): the new vector holds the items of its argument' % (vcls.__name__, source),
+                        ops.as_seq(out.f['_items']).copy('list'), items0.copy('list'))
+
+    def native(seed=0):
+        import random
+        rnd = random.Random(seed)
+        for _ in range(50):
+            try:
+                n = rnd.randrange(0, 5)
+                a = vcls(_native_items(vcls, param, n, rnd))
+            except Exception:
+                continue
+            arg = a if source == 'vector' else list(a)
+            before = list(a)
+            b = vcls(arg)
+            try:
+                if len(b):
+                    del b[0]
+                else:
+                    continue
+            except Exception:
+                continue
+            if list(a) != before or (source == 'list' and arg != before):
+                return dict(reproduced=True, call='a = %r; b = %s(a%s); del b[0]' % (a, vcls.__name__, '' if source == 'vector' else ' as list'),
+                            expected='a unchanged: %r' % (before,), observed='a == %r' % (list(a),), key='shared item list')
+        return dict(reproduced=False)
+    return Unit('fresh/%s(%s)' % (vcls.__name__, source), lambda: (e1.setup(), vc.run_unit('fresh', thunk))[1],
+                replay=lambda inputs: native(), search=lambda seed, hints=(): native(seed), clause='no shared state',
+                functions=['ArrayBase.__attrs_post_init__'])
+
+
+def _native_items(vcls, param, n, rnd):
+    import enum as _enum
+    ic = getattr(param, 'item_class', None)
+    if isinstance(ic, type) and issubclass(ic, _enum.Enum):
+        ms = list(ic)
+        return [rnd.choice(ms) for _ in range(n)]
+    if getattr(param, 'item_classes', None):
+        for c in param.item_classes:
+            if hasattr(c, 'get_enum_class'):
+                ms = list(c.get_enum_class())
+                return [rnd.choice(ms) for _ in range(n)]
+    return [rnd.randrange(0, 256) for _ in range(n)]
+
+
 def is_mutable_value(v):
     from cryptoparser.common.base import ArrayBase
     if isinstance(v, MUTABLE_BUILTINS):
@@ -290,6 +349,12 @@ def units(tier, seed):
     for c in common.select_classes(e1.binary_classes(), tier, 'C13'):
         out.append(alias_unit(c))
     out.append(defaults_unit())
+    from checks import c12
+    for vcls, param, w in c12.fixed_vectors():
+        if vcls.__name__ in ('TlsHandshakeHelloRandomBytes',):
+            continue
+        for source in ('vector', 'list'):
+            out.append(ctor_fresh_unit(vcls, param, w, source))
     from checks import c13_obs
     out.extend(c13_obs.units(tier, seed))
     UNCOVERED[:] = common.uncovered_report(e1.binary_classes(), classes) + \
